@@ -53,6 +53,13 @@ const c08pure = `
   qty: int!
 }
 
+: NewTicket {
+  title: str!
+  urgent: bool = false
+  labels: [str] = ["untriaged"]
+  meta: object = {escalations: 0}
+}
+
 ! fact(n: int): int {
   if n <= 1 {
     > 1
@@ -144,6 +151,15 @@ const c08pure = `
   + ratelimit(100000/min)
   $ k = parseInt(n)
   > {route: "guarded", value: k + 1}
+}
+
+@ POST /pure/ticket {
+  < input: NewTicket
+  if input.urgent {
+    $ input.meta.escalations = input.meta.escalations + 1
+    $ input.labels = input.labels + ["urgent"]
+  }
+  > {route: "ticket", title: input.title, labels: input.labels, meta: input.meta}
 }
 `
 
@@ -282,6 +298,22 @@ const c08prov = `
   $ k = parseInt(n)
   > {route: "plain", value: k * 3}
 }
+
+@ POST /db/articles {
+  % db: Database
+  $ a = db.articles.create({title: input.title, tags: input.tags})
+  > {route: "a-create", id: a.id}
+}
+
+@ POST /db/articles/search {
+  % db: Database
+  > {route: "a-search", found: db.articles.filter("tags", input.tags)}
+}
+
+@ GET /db/articles/count {
+  % db: Database
+  > {route: "a-count", n: db.articles.length()}
+}
 `
 
 type c08result struct {
@@ -301,7 +333,13 @@ func c08desc(r simReq) string {
 
 func c08genPure(s *sim.Sim) simReq {
 	hdr := [][2]string{}
-	switch s.Choose(sim.SWork, 12) {
+	switch s.Choose(sim.SWork, 14) {
+	case 12, 13:
+		// defaults of omitted fields (object and list literals) are per request
+		if s.Choose(sim.SWork, 2) == 0 {
+			return simReq{method: "POST", path: "/pure/ticket", body: fmt.Sprintf(`{"title":"t%d","urgent":true}`, s.Choose(sim.SWork, 5))}
+		}
+		return simReq{method: "POST", path: "/pure/ticket", body: fmt.Sprintf(`{"title":"t%d"}`, s.Choose(sim.SWork, 5))}
 	case 0:
 		return simReq{path: fmt.Sprintf("/pure/fact/%d", 1+s.Choose(sim.SWork, 10))}
 	case 1, 2, 3:
@@ -390,7 +428,21 @@ func c08Server(s *sim.Sim, p *sim.Params, providers bool) {
 				r = c08genCompiled(s)
 			} else {
 				nuniq++
-				switch s.Choose(sim.SWork, 14) {
+				switch s.Choose(sim.SWork, 18) {
+				case 14:
+					if s.Choose(sim.SWork, 2) == 0 {
+						r = simReq{method: "POST", path: "/db/articles", body: fmt.Sprintf(`{"title":"a%d","tags":["go","t%d"]}`, nuniq, ti)}
+					} else {
+						r = simReq{method: "POST", path: "/db/articles", body: fmt.Sprintf(`{"title":"a%d","tags":"go"}`, nuniq)}
+					}
+				case 15:
+					r = simReq{method: "POST", path: "/db/articles/search", body: `{"tags":"go"}`}
+				case 16:
+					// equality with a list: the store cannot evaluate it against records that hold a
+					// list (Go lists do not compare); the request may be dropped, nothing else may suffer
+					r = simReq{method: "POST", path: "/db/articles/search", body: `{"tags":["go"]}`, abortOK: true}
+				case 17:
+					r = simReq{path: "/db/articles/count"}
 				case 0, 1, 2:
 					r = simReq{method: "POST", path: "/db/users", body: fmt.Sprintf(`{"name":"u%d","tag":"t%d"}`, nuniq, ti)}
 				case 3:
@@ -477,6 +529,9 @@ func c08Server(s *sim.Sim, p *sim.Params, providers bool) {
 				s.Fail("oracle", "solo-refinement:"+c08route(r.req.path), fmt.Sprintf("%s answered %d %s with other requests in flight, but %d %s when it is the only request\n%s", k, r.resp.status, strings.TrimSpace(r.resp.body), want.status, strings.TrimSpace(want.body), strings.Join(sample, "\n")))
 			}
 			continue
+		}
+		if r.resp.status == 0 && r.req.abortOK {
+			s.Probe("request-dropped-by-contained-panic")
 		}
 		if r.resp.status >= 500 {
 			lg := simLogTail()
